@@ -1,18 +1,22 @@
 //! Seeded scripts for general-purpose worlds: journals, failures, data, events and
 //! (nested) calls to peers through the real helpers or as raw wasm messages.
 
+use crate::monitor::reply::Table;
+use crate::plan::Code;
 use crate::rng::Rng;
 use crate::values::{doc_for, gen_args, Pool};
 use crate::world::ContractInfo;
 use rt::script::{Msg, ReplyReq, Script, Send, Step};
 use rt::spec::{HandlerSpec, Kind};
-use serde_json::Value;
+use serde_json::{json, Value};
 use sylvia::cw_std::{Binary, Coin};
 
 pub struct ScriptGen<'a> {
     pub reg: &'a crate::reg::Reg,
     pub contracts: &'a [ContractInfo],
     pub accounts: &'a [String],
+    pub codes: &'a [Code],
+    pub code_ids: &'a [u64],
     pub nonce: u64,
     pub max_depth: u32,
     /// per-mille chance that a script ends in a failure
@@ -21,9 +25,17 @@ pub struct ScriptGen<'a> {
     pub funds_pm: u64,
     /// percentage of nested calls built through the typed executor helper
     pub typed_pct: u64,
+    /// percentage of typed calls to interface methods that go through a `dyn Interface` handle
+    pub dyn_pct: u64,
     /// only call handlers with regular names
     pub regular_only: bool,
     pub queries: bool,
+    /// per-mille chances of the rarer steps
+    pub inst_pm: u64,
+    pub admin_pm: u64,
+    pub extra_msgs_pm: u64,
+    pub reply_pm: u64,
+    pub remote_pm: u64,
 }
 
 impl<'a> ScriptGen<'a> {
@@ -32,13 +44,21 @@ impl<'a> ScriptGen<'a> {
             reg,
             contracts,
             accounts,
+            codes: &[],
+            code_ids: &[],
             nonce: 0,
             max_depth: 3,
             fail_pm: 150,
             funds_pm: 200,
             typed_pct: 60,
+            dyn_pct: 40,
             regular_only: true,
             queries: true,
+            inst_pm: 0,
+            admin_pm: 0,
+            extra_msgs_pm: 0,
+            reply_pm: 0,
+            remote_pm: 0,
         }
     }
 
@@ -53,7 +73,30 @@ impl<'a> ScriptGen<'a> {
         v
     }
 
-    pub fn script(&mut self, rng: &mut Rng, depth: u32) -> Script {
+    /// a reply request the contract type `owner_cid` can serve (or a hand-made one)
+    fn reply_req(&mut self, rng: &mut Rng, owner_cid: &str, depth: u32) -> ReplyReq {
+        if !rng.chance(self.reply_pm, 1000) {
+            return ReplyReq::None;
+        }
+        let rs = if depth < self.max_depth && rng.chance(1, 3) {
+            json!([{"journal": {"tag": format!("rp{}", self.nonce())}}])
+        } else {
+            json!([])
+        };
+        let payload = Binary::from(serde_json::to_vec(&json!({"nonce": self.nonce(), "script": rs})).unwrap());
+        let has_alw = self
+            .reg
+            .get(owner_cid)
+            .map(|e| e.spec.replies_feature && Table::of(e).names.contains_key("alw"))
+            .unwrap_or(false);
+        if has_alw && rng.chance(2, 3) {
+            ReplyReq::Handler { name: "alw".into(), payload, recv: *rng.pick(&[0u8, 2]) }
+        } else {
+            ReplyReq::Raw { id: rng.below(2), on: rng.below(3) as u8, payload }
+        }
+    }
+
+    pub fn script(&mut self, rng: &mut Rng, owner_cid: &str, depth: u32) -> Script {
         let mut steps = vec![];
         let n = rng.below(4);
         for _ in 0..n {
@@ -67,7 +110,7 @@ impl<'a> ScriptGen<'a> {
                 5 => steps.push(Step::Event { ty: format!("e{}", rng.below(3)), k: "n".into(), v: self.nonce().to_string() }),
                 6 | 7 | 8 => {
                     if depth < self.max_depth && !self.contracts.is_empty() {
-                        if let Some(s) = self.send_exec(rng, depth) {
+                        if let Some(s) = self.send_exec(rng, owner_cid, depth) {
                             steps.push(Step::Send(s));
                         }
                     }
@@ -80,6 +123,36 @@ impl<'a> ScriptGen<'a> {
                     }
                 }
             }
+        }
+        if depth < self.max_depth && rng.chance(self.inst_pm, 1000) {
+            if let Some(s) = self.send_inst(rng, owner_cid, depth) {
+                steps.push(Step::Send(s));
+            }
+        }
+        if rng.chance(self.admin_pm, 1000) && !self.contracts.is_empty() {
+            let peer = rng.pick(self.contracts).clone();
+            let msg = if rng.chance(2, 3) {
+                Msg::UpdateAdmin { peer: peer.addr.clone(), ty: peer.cid.clone(), admin: rng.pick(&self.pool_addrs()).clone() }
+            } else {
+                Msg::ClearAdmin { peer: peer.addr.clone(), ty: peer.cid.clone() }
+            };
+            steps.push(Step::Send(Send { msg, reply: ReplyReq::None, gas_limit: None }));
+        }
+        if rng.chance(self.extra_msgs_pm, 1000) {
+            let k = rng.range(1, 3);
+            for _ in 0..k {
+                let msg = match rng.below(6) {
+                    0 | 1 => Msg::Bank { to: rng.pick(&self.pool_addrs()).clone(), amount: vec![Coin::new(rng.below(4) as u128, "ucoin")] },
+                    2 | 3 => Msg::Custom { tag: format!("t{}", self.nonce()) },
+                    _ => Msg::Other { which: rng.below(5) as u8 },
+                };
+                let reply = self.reply_req(rng, owner_cid, depth);
+                let gas_limit = if rng.chance(1, 2) { Some(rng.below(1_000_000)) } else { None };
+                steps.push(Step::Send(Send { msg, reply, gas_limit }));
+            }
+        }
+        if rng.chance(self.remote_pm, 1000) && !self.contracts.is_empty() {
+            steps.extend(self.remote_steps(rng, depth));
         }
         if rng.chance(self.fail_pm, 1000) {
             let at = rng.below(steps.len() as u64 + 1) as usize;
@@ -105,11 +178,11 @@ impl<'a> ScriptGen<'a> {
         }
     }
 
-    /// arguments for a handler, with a nested script where it takes one
-    pub fn args_for(&mut self, rng: &mut Rng, h: &HandlerSpec, depth: u32) -> serde_json::Map<String, Value> {
+    /// arguments for a handler of contract type `cid`, with a nested script where it takes one
+    pub fn args_for(&mut self, rng: &mut Rng, cid: &str, h: &HandlerSpec, depth: u32) -> serde_json::Map<String, Value> {
         let addrs = self.pool_addrs();
         let script = if h.args.iter().any(|a| a.ty == "Script") && h.kind != Kind::Query {
-            Some(serde_json::to_value(self.script(rng, depth + 1)).unwrap())
+            Some(serde_json::to_value(self.script(rng, cid, depth + 1)).unwrap())
         } else {
             None
         };
@@ -117,10 +190,23 @@ impl<'a> ScriptGen<'a> {
         gen_args(rng, h.args, &pool, script)
     }
 
-    pub fn send_exec(&mut self, rng: &mut Rng, depth: u32) -> Option<Send> {
+    /// the type under which a typed helper addresses `h` of `peer`: the concrete contract type,
+    /// or (for interface methods) a `dyn Interface` handle type
+    fn handle_ty(&self, rng: &mut Rng, peer: &ContractInfo, h: &HandlerSpec) -> String {
+        if !h.part.is_empty() && rng.below(100) < self.dyn_pct {
+            if let Some(p) = self.reg.get(&peer.cid).and_then(|e| e.spec.parts.iter().find(|p| p.name == h.part)) {
+                if !p.dyn_ty.is_empty() && rt::registry::get(p.dyn_ty).is_some() {
+                    return p.dyn_ty.to_string();
+                }
+            }
+        }
+        peer.cid.clone()
+    }
+
+    pub fn send_exec(&mut self, rng: &mut Rng, owner_cid: &str, depth: u32) -> Option<Send> {
         let peer = rng.pick(self.contracts).clone();
         let h = self.pick_handler(rng, &peer, Kind::Exec)?;
-        let args = self.args_for(rng, h, depth);
+        let args = self.args_for(rng, &peer.cid, h, depth);
         let funds = if rng.chance(self.funds_pm, 1000) {
             Some(vec![Coin::new(rng.below(30) as u128, "ucoin")])
         } else if rng.chance(1, 10) {
@@ -132,7 +218,7 @@ impl<'a> ScriptGen<'a> {
         let msg = if typed {
             Msg::Exec {
                 peer: peer.addr.clone(),
-                ty: peer.cid.clone(),
+                ty: self.handle_ty(rng, &peer, h),
                 method: format!("{}:{}", h.part, h.fn_name),
                 args: Binary::from(serde_json::to_vec(&Value::Object(args)).unwrap()),
                 funds,
@@ -150,19 +236,88 @@ impl<'a> ScriptGen<'a> {
                 slot: None,
             }
         };
-        Some(Send { msg, reply: ReplyReq::None, gas_limit: None })
+        let reply = self.reply_req(rng, owner_cid, depth);
+        Some(Send { msg, reply, gas_limit: None })
+    }
+
+    pub fn send_inst(&mut self, rng: &mut Rng, owner_cid: &str, depth: u32) -> Option<Send> {
+        if self.codes.is_empty() {
+            return None;
+        }
+        let code = rng.below(self.codes.len() as u64) as usize;
+        let pe = self.reg.get(&self.codes[code].cid)?;
+        if pe.spec.overrides.contains(&Kind::Instantiate) {
+            return None;
+        }
+        let h = pe.spec.of_kind(Kind::Instantiate).next()?;
+        let args = self.args_for(rng, pe.spec.cid, h, depth);
+        let msg = Msg::Inst {
+            code_id: *self.code_ids.get(code)?,
+            ty: pe.spec.cid.to_string(),
+            args: Binary::from(serde_json::to_vec(&Value::Object(args)).unwrap()),
+            label: match rng.below(5) { 0 => None, 1 => Some(String::new()), _ => Some(format!("sub{}", self.nonce())) },
+            admin: if rng.chance(1, 2) { Some(rng.pick(&self.pool_addrs()).clone()) } else { None },
+            funds: match rng.below(4) { 0 => Some(vec![Coin::new(rng.below(20) as u128, "ucoin")]), 1 => Some(vec![]), _ => None },
+            salt: if rng.chance(1, 3) { let n = rng.range(1, 6) as usize; Some(Binary::from(rng.bytes(n))) } else { None },
+        };
+        let reply = self.reply_req(rng, owner_cid, depth);
+        Some(Send { msg, reply, gas_limit: None })
     }
 
     pub fn query_step(&mut self, rng: &mut Rng) -> Option<Step> {
         let peer = rng.pick(self.contracts).clone();
         let h = self.pick_handler(rng, &peer, Kind::Query)?;
-        let args = self.args_for(rng, h, 99);
+        let args = self.args_for(rng, &peer.cid, h, 99);
         Some(Step::Query {
             peer: peer.addr.clone(),
-            ty: peer.cid.clone(),
+            ty: self.handle_ty(rng, &peer, h),
             method: format!("{}:{}", h.part, h.fn_name),
             args: Binary::from(serde_json::to_vec(&Value::Object(args)).unwrap()),
             form: rng.below(3) as u8,
         })
+    }
+
+    /// every handle type under which `peer` can be addressed
+    pub fn handle_types(&self, peer: &ContractInfo) -> Vec<String> {
+        let mut v = vec![peer.cid.clone()];
+        if let Some(e) = self.reg.get(&peer.cid) {
+            for p in e.spec.parts {
+                if !p.dyn_ty.is_empty() && rt::registry::get(p.dyn_ty).is_some() {
+                    v.push(p.dyn_ty.to_string());
+                }
+            }
+        }
+        v
+    }
+
+    /// store / re-store / use remote handles (C20): the type parameter used to write a slot
+    /// is unrelated to the one used to read it
+    pub fn remote_steps(&mut self, rng: &mut Rng, depth: u32) -> Vec<Step> {
+        let mut out = vec![];
+        let slots = ["r0", "r1", "r2"];
+        let peer = rng.pick(self.contracts).clone();
+        let tys = self.handle_types(&peer);
+        match rng.below(4) {
+            0 | 1 => out.push(Step::SaveRemote { slot: rng.pick(&slots).to_string(), addr: peer.addr.clone(), ty: rng.pick(&tys).clone(), form: rng.below(2) as u8 }),
+            2 => {
+                // any registered handle type may read any slot
+                let all: Vec<String> = rt::registry::all().into_iter().map(|(k, _)| k.clone()).collect();
+                out.push(Step::Resave { slot: rng.pick(&slots).to_string(), to: rng.pick(&slots).to_string(), ty: rng.pick(&all).clone() })
+            }
+            _ => {
+                // call through a stored handle: the slot was (maybe) written earlier for this peer
+                if let Some(h) = self.pick_handler(rng, &peer, Kind::Exec) {
+                    let args = self.args_for(rng, &peer.cid, h, depth);
+                    let slot = rng.pick(&slots).to_string();
+                    out.push(Step::SaveRemote { slot: slot.clone(), addr: peer.addr.clone(), ty: rng.pick(&tys).clone(), form: rng.below(2) as u8 });
+                    out.push(Step::Send(Send {
+                        msg: Msg::Exec { peer: peer.addr.clone(), ty: self.handle_ty(rng, &peer, h), method: format!("{}:{}", h.part, h.fn_name), args: Binary::from(serde_json::to_vec(&Value::Object(args)).unwrap()), funds: None, form: 3, slot: Some(slot) },
+                        reply: ReplyReq::None,
+                        gas_limit: None,
+                    }));
+                }
+            }
+        }
+        out
     }
 }
